@@ -187,7 +187,19 @@ class CompiledTables:
                 cands.append((name, cols, int(m.group(2)), rows, d['span']))
             elif m and m.group(1) in ('u32', 'u64') and d['kind'].startswith(('Const', 'Static')):
                 try:
-                    self.direction[name] = (m.group(1), int(m.group(2)), [lit_int(x) for x in d['v']], d['span'])
+                    # the compiler's own evaluation of the initialiser when it is there (so `u32::from_le_bytes(*b"Mong")` is the number it denotes);
+                    # where the HIR initialiser is a plain literal array both readings must agree
+                    ev = [int(x) for x in d['ev']] if isinstance(d.get('ev'), list) else None
+                    try:
+                        lits = [lit_int(x) for x in d['v']]
+                    except (ValueError, TypeError):
+                        lits = None
+                        if ev is None:
+                            raise
+                    if ev is not None and lits is not None and ev != lits:
+                        self.errors.append('%s: literal initialiser and const-evaluated value disagree' % name)
+                        continue
+                    self.direction[name] = (m.group(1), int(m.group(2)), ev if ev is not None else lits, d['span'])
                 except (ValueError, TypeError) as ex:
                     self.errors.append('%s: initialiser is not a literal array: %s' % (name, ex))
             elif d['ty'] in ('&str', "&'static str") and d['kind'].startswith('Static') and isinstance(d['v'], str):
